@@ -6,7 +6,7 @@ import PyctrModel.Fmt.Cci
 namespace Pyctr
 open Engine
 
-theorem load_enc_ok (E D : Bytes → Bytes → Bytes) (hED : ∀ k b, D k (E k b) = b) (hE : ∀ k b, (E k b).length = 16)
+theorem load_enc_ok (E D : Bytes → Bytes → Bytes) (hED : ∀ k b, b.length = 16 → D k (E k b) = b) (hE : ∀ k b, b.length = 16 → (E k b).length = 16)
     (e : Engine) (x ky idx : Nat) (k tid : Bytes) (hx : e.keyX 0x3D = some x) (hk : k.length = 16) (htid : tid.length = 8)
     (hidx : commonKeyY[idx]? = some ky) (hnd : ¬ (e.dev = true ∧ idx = 0)) :
     (Engine.loadEncryptedTitlekey D e (E (keygenSlot 0x3D x ky) (xorBytes k (tid ++ zeros 8))) idx tid).2 = none ∧
@@ -17,11 +17,12 @@ theorem load_enc_ok (E D : Bytes → Bytes → Bytes) (hED : ∀ k b, D k (E k b
     simp [Engine.cipherKey, Engine.setKeyslot, Engine.upd, hx]
   simp only [hck]
   have hiv : (tid ++ zeros 8).length = 16 := by simp [htid]
-  rw [if_neg (by simp [hiv]), if_neg (by rw [hE]; decide)]
+  have hxl : (xorBytes k (tid ++ zeros 8)).length = 16 := by simp [xorBytes, hk, hiv]
+  rw [if_neg (by simp [hiv]), if_neg (by rw [hE _ _ hxl]; decide)]
   rw [titlekey_recovered E D hED _ _ k hk hiv hE]
   simp [Engine.setNormal, Engine.upd]
 
-theorem cdn_key_sources (E D : Bytes → Bytes → Bytes) (hED : ∀ k b, D k (E k b) = b) (hE : ∀ k b, (E k b).length = 16)
+theorem cdn_key_sources (E D : Bytes → Bytes → Bytes) (hED : ∀ k b, b.length = 16 → D k (E k b) = b) (hE : ∀ k b, b.length = 16 → (E k b).length = 16)
     (e : Engine) (x ky idx : Nat) (k tid : Bytes) (hx : e.keyX 0x3D = some x) (hk : k.length = 16) (htid : tid.length = 8)
     (hidx : commonKeyY[idx]? = some ky) (hnd : ¬ (e.dev = true ∧ idx = 0)) :
     let encTk := E (keygenSlot 0x3D x ky) (xorBytes k (tid ++ zeros 8))
@@ -31,7 +32,11 @@ theorem cdn_key_sources (E D : Bytes → Bytes → Bytes) (hED : ∀ k b, D k (E
       slice ticket 0x1DC 8 = tid → ∀ i, (Cdn.setupKey D e tid [] [] i (some ticket)).1.normal 0x40 = some k) := by
   intro encTk
   have hkne : k ≠ [] := by intro h; rw [h] at hk; simp at hk
-  have hene : encTk ≠ [] := by intro h; have := hE (keygenSlot 0x3D x ky) (xorBytes k (tid ++ zeros 8)); rw [show E _ _ = encTk from rfl, h] at this; simp at this
+  have hxl : (xorBytes k (tid ++ zeros 8)).length = 16 := by simp [xorBytes, hk, htid]
+  have hene : encTk ≠ [] := by
+    intro h
+    have := hE (keygenSlot 0x3D x ky) (xorBytes k (tid ++ zeros 8)) hxl
+    rw [show E _ _ = encTk from rfl, h] at this; simp at this
   refine ⟨?_, ?_, ?_⟩
   · intro enc i c
     simp [Cdn.setupKey, hkne, Engine.setNormal, Engine.upd]
